@@ -1,4 +1,5 @@
 import KoordVerif.Common.Proto
+import KoordVerif.Model.C19Adapter
 /-
 C19 extension 2 — two pieces of glue between "what is persisted" and "what the restarted scheduler holds
 when it takes its first decision".  Core Lean only (linked into drv_c19).
@@ -165,8 +166,28 @@ def takeMap : List Nat → Option (AMap × List Nat)
 
 def withSp (tag rest : String) : String := if rest = "" then tag ++ " " else tag ++ " " ++ rest
 
+/-- `rpod flt <del> <k> (<template> <owners> <expiry> <node> <phase>)^k` (harness `rflt`, Model/C19Adapter.lean)
+    -> `calls <code>*` `present <0|1>` `fresh <0|1>` -/
+def fltLine (args : List String) : List String :=
+  match nats? args with
+  | some (del :: k :: more) =>
+    if del > 1 ∨ k = 0 ∨ more.length ≠ 5 * k then ["bad-op"] else
+    let vs : List Adapter.RV := (chunks 5 more).filterMap fun
+      | [t, o, e, n, ph] => some { tmpl := t ≠ 0, owners := o ≠ 0, expiry := e ≠ 0, node := n ≠ 0, phase := ph }
+      | _ => none
+    match vs with
+    | [] => ["bad-op"]
+    | v0 :: rest =>
+      let last := Adapter.lastV v0 rest
+      let cs := Adapter.calls v0 rest ++ (if del = 1 then Adapter.onDelete last else [])
+      let fresh := if del = 1 then false else Adapter.presentAfter (Adapter.onAdd last)
+      [withSp "calls" (showNats (cs.map Adapter.code)),
+       s!"present {b2i (Adapter.presentAfter cs)}", s!"fresh {b2i fresh}"]
+  | _ => ["bad-op"]
+
 def stepLine (out : List String) (line : String) : List String :=
   match toks line with
+  | "rpod" :: "flt" :: rest => out ++ fltLine rest
   | "rpod" :: rest =>
     match nats? rest with
     | some (pa :: sn :: r0) =>
